@@ -1,6 +1,7 @@
 import Driver.Util
 import Typegen.Classes
 import Typegen.Attr
+import Typegen.Zod
 /-! ops on type expressions: `typeStr`, `parseTS`, `site`, `prefix` (C05, C18, C01, C02) -/
 open Lean
 namespace Drv
@@ -231,5 +232,70 @@ def opPrefix (inp imp : Json) : Except String Json := do
   let mo := addPrefix s
   pure <| obj [("model", obj [("out", jstr mo)]), ("agree", jb ((getS imp "out").toOption == some (String.ofList mo))),
     ("oracle_impl", obj []), ("oracle_model", obj []), ("nontrivial", jb (s.length ≥ 3)), ("class", Json.arr #[])]
+
+mutual
+def hasSet : TS → Bool
+  | .set _ => true
+  | .prim _ | .custom _ => false
+  | .array t | .optional t | .result t => hasSet t
+  | .map k v => hasSet k || hasSet v
+  | .tuple ts => hasSetL ts
+def hasSetL : TSList → Bool
+  | .nil => false
+  | .cons t ts => hasSet t || hasSetL ts
+end
+mutual
+def hasResult : TS → Bool
+  | .result _ => true
+  | .prim _ | .custom _ => false
+  | .array t | .optional t | .set t => hasResult t
+  | .map k v => hasResult k || hasResult v
+  | .tuple ts => hasResultL ts
+def hasResultL : TSList → Bool
+  | .nil => false
+  | .cons t ts => hasResult t || hasResultL ts
+end
+
+def shapeTsText (s : Str) : Option Z.Shape := (parseTsTy s).map Z.shapeOfTs
+def shapeZodText (s : Str) : Option Z.Shape := (Z.parseZod s).map Z.shapeOfZ
+
+/-- op `shape` (C10): the two renderings of one type at the parameter and field sites -/
+def opShape (inp imp : Json) : Except String Json := do
+  let r ← rtyOfJson (← inp.getObjVal? "rty")
+  let m := mappingsOf inp
+  let s := str r
+  let t := parseTS (parseFuel s) s
+  let model : List (String × Str) :=
+    [("ts_param", visitTs m t), ("zod_param", buildParamSchema m t), ("ts_field", visitTs m t),
+     ("zod_field", buildSchema m t none), ("zod_iface", visitTs m t)]
+  let get (k : String) : Option Str := (getS imp k).toOption.map String.toList
+  let agree := (model.all fun (k, v) => get k == some v) && (imp.getObjVal? "ts").toOption == some (tsToJson t)
+  let orc (g : String → Option Str) : List (String × Bool) :=
+    let sh (k : String) (f : Str → Option Z.Shape) : Option Z.Shape := (g k).bind f
+    let tsP := sh "ts_param" shapeTsText
+    let tsF := sh "ts_field" shapeTsText
+    let zP := sh "zod_param" shapeZodText
+    let zF := sh "zod_field" shapeZodText
+    let zI := sh "zod_iface" shapeTsText
+    [("c10_param_shape", tsP.isSome && tsP == zP), ("c10_field_shape", tsF.isSome && tsF == zF),
+     ("c10_iface_shape", tsF.isSome && tsF == zI),
+     ("c10_shape_mod_known", tsF.isSome && tsF == zF.map Z.normKnown && tsP == zP.map Z.normKnown)] ++
+    -- the link between the texts and the shapes the theorems speak about (no mapping table)
+    (if m.isEmpty then
+      [("text_is_tsShape", tsF == some (Z.tsShape t)), ("text_is_zodShape", zF == some (Z.zodShape t) && zP == some (Z.zodShape t))]
+     else [])
+  let tS := structOf r
+  let classes : List String :=
+    (if !wfB r then ["unsupported"] else []) ++
+    (if !commaSafeB r then ["K05_commaUnsafe"] else []) ++
+    (if !precSafe t then ["K05a_precUnsafe"] else []) ++
+    (if hasSet t then ["K10a_set"] else []) ++
+    (if hasResult t then ["K10b_resultUnion"] else []) ++
+    (if !Z.namesOk tS && m.isEmpty then ["namesNotOk"] else [])
+  pure <| obj [("model", obj (model.map fun (k, v) => (k, jstr v))), ("agree", jb agree),
+    ("oracle_impl", obj ((orc get).map fun p => (p.1, jb p.2))),
+    ("oracle_model", obj ((orc fun k => (model.find? (·.1 == k)).map (·.2)).map fun p => (p.1, jb p.2))),
+    ("nontrivial", jb (size r ≥ 2)),
+    ("class", jSs classes)]
 
 end Drv
